@@ -32,6 +32,33 @@ Proof.
 Qed.
 Print Assumptions C02_no_stale_fallback.
 
+(* occurrences of no-cache add up: a stored response whose Cache-Control field — in any spelling, on any number of field
+   lines — has one no-cache without argument among its directives, whatever other occurrences of no-cache (qualified,
+   before or after it) and whatever other directives it carries, is never answered from the store without validation *)
+From HC Require Import CCSyntax.
+From HC.Proofs Require Import SpellProofs.
+Theorem C02_any_unqualified_no_cache : forall (ls : list (list element)) q e now,
+  hvalues cc_name (e_hdr e) = render_lines ls ->
+  forallb (forallb elem_ok) ls = true ->
+  (exists d, In d (dirs_of (List.concat ls)) /\ dn d = no_cache_name /\ da d = []) ->
+  decide_hit q e now = D504 \/ decide_hit q e now = DRevalidate true.
+Proof.
+  intros ls q e now Hh Hok Hex. apply C02_no_stale_fallback.
+  pose proof (parse_any_spelling ls (e_hdr e) no_cache_name Hh Hok) as P.
+  rewrite (meaning_any_unqualified _ Hex) in P.
+  unfold hit_must_validate, hit_qualified.
+  change (resp_no_cache (parse_cc (e_hdr e))) with (arg_of no_cache_name (parse_cc (e_hdr e))). rewrite P. reflexivity.
+Qed.
+Print Assumptions C02_any_unqualified_no_cache.
+
+(* non-vacuity, and the qualified case: the field names of two qualified occurrences are both covered *)
+Example C02_occurrences_example :
+  let h1 := [(cc_name, [bs "no-cache, max-age=300, no-cache=""X-Session"""])] in
+  let h2 := [(cc_name, [bs "max-age=300, no-cache=""X-Session"""; bs "No-Cache=X-Other"])] in
+  resp_no_cache (parse_cc h1) = Some [] /\
+  hit_qualified_cc (parse_cc h2) = Some [bs "X-Session"; bs "X-Other"].
+Proof. vm_compute. split; reflexivity. Qed.
+
 (* with the fallback forbidden, a failed validation returns the origin's error or error response *)
 Theorem C02_mandatory_validation_outcome : forall ctx q rep,
   rc_no_stale ctx = true ->
